@@ -36,6 +36,7 @@ import (
 	"net"
 	"os"
 	"os/exec"
+	"runtime"
 	"sort"
 	"strconv"
 	"strings"
@@ -400,6 +401,9 @@ func TestVerifC18MuxChild(t *testing.T) {
 	if os.Getenv("VERIF_C18_CHILD") != "1" {
 		t.Skip("child of TestVerifC18Mux")
 	}
+	// one P: the goroutines a call spawns do not run before the caller blocks, so "GetOrCreate
+	// and ml.ListenX() back to back" is the early-registration order deterministically
+	runtime.GOMAXPROCS(1)
 	in := bufio.NewReaderSize(os.Stdin, 1<<20)
 	w := bufio.NewWriter(os.Stdout)
 	for {
@@ -408,7 +412,13 @@ func TestVerifC18MuxChild(t *testing.T) {
 		if line != "" {
 			var out string
 			var oracle []string
-			synctest.Test(t, func(t *testing.T) { out, oracle = c18RunHistory(line) })
+			synctest.Test(t, func(t *testing.T) {
+				if strings.HasPrefix(line, "mgr") {
+					out, oracle = c18RunMgrHistory(line)
+				} else {
+					out, oracle = c18RunHistory(line)
+				}
+			})
 			fmt.Fprintf(w, "%s%s", c18Marker, out)
 			for _, o := range oracle {
 				fmt.Fprintf(w, "\t%s", strings.ReplaceAll(o, "\t", " "))
@@ -554,6 +564,12 @@ func c18Payload(r *vh.RNG) string {
 }
 
 func (m *c18Mux) Gen(r *vh.RNG, n int, emit func(op string, tags ...string)) {
+	// two thirds mux-level histories, one third through the manager API
+	c18MuxGen(r, n-n/3, emit)
+	c18MgrGen(r, n/3, emit)
+}
+
+func c18MuxGen(r *vh.RNG, n int, emit func(op string, tags ...string)) {
 	// the histories the design singles out, then random ones
 	fixed := [][2]string{
 		{"mux LS C0=0501 B0 X0", "close-while-pending"},
